@@ -76,11 +76,14 @@ def evaluate(case):
         for s in SCALES:
             d = {k: v.copy() for k, v in d0.items()}
             d['preT2'][tidx] = d['preT2'][tidx] * s
+            # documented usage: the free-energy arrays are computed once and handed to every Lij call
+            if len(calc.GFvalues) > 64: calc.clearcache()
+            bF = calc.preene2betafree(1.0, **d)
             for alg, kw in (('std', {'large_om2': np.inf}), ('large', {'large_om2': -1}), ('default', {})):
                 key = tkey + ';s={:.0e};alg={}'.format(s, alg)
                 try:
                     with EighSpy() as spy:
-                        L = vm.package_L(ent, d, **kw)
+                        L = vm.lij_bF(calc, bF, **kw)
                     took_large = spy.n > 0
                 except Exception as e:
                     viols.append({'oracle': 'exception', 'key': key, 'detail': repr(e)}); continue
